@@ -481,8 +481,7 @@ theorem Sat.classLookup {c : Ctx} (hA : AwaitOK c) : ∀ (cuts : List (PyStr × 
     obtain ⟨p, cn⟩ := pc
     simp only [Handlers.classLookup]
     refine Sat.bind (Sat.prim hA _ rfl (by mem_tac)) (fun m => ?_)
-    refine Sat.ite (fun _ => ih _) (fun _ => ?_)
-    exact Sat.bind (Sat.prim hA _ rfl (by mem_tac)) (fun _ => Sat.pure _ (by simp))
+    exact Sat.ite (fun _ => ih _) (fun _ => Sat.pure _ (by simp))
 
 theorem Sat.netrefFactory {c : Ctx} (hA : AwaitOK c) {need : List Nat} (idp : IdPack) :
     Sat c need (netrefFactory idp) (fun _ => []) := by
@@ -859,8 +858,11 @@ theorem Sat.cleanup {c : Ctx} (hA : AwaitOK c) {need : List Nat} : Sat c need cl
     intro st fut hI hN
     exact Sat.prim hA (need := [c.root]) _ rfl (by mem_tac) st fut hI (by
       intro o ho; simp at ho; subst ho; exact root_known _ _)
-  refine Sat.bind h2 (fun _ => ?_)
-  exact Sat.modify _ (fun _ => rfl) (fun _ s hs => by cases hs) (fun _ p hp => by cases hp)
+  refine Sat.bind (Sat.attempt h2) (fun r => ?_)
+  refine Sat.bind (Sat.modify _ (fun _ => rfl) (fun _ s hs => by cases hs) (fun _ p hp => by cases hp)) (fun _ => ?_)
+  cases r with
+  | error x => exact Sat.throwX x
+  | ok v => exact Sat.pure _ (by simp)
 
 theorem mem_tableSet {tbl : List Slot} {key : Val} {m : Int} {s : Slot} (hs : s ∈ tableSet tbl key m) :
     ∃ s' ∈ tbl, s'.o = s.o := by
